@@ -468,7 +468,13 @@ func c10TrackerStr(t *domainRoutingTracker) string {
 	t.mu.Lock()
 	defer t.mu.Unlock()
 	var owners []string
-	for o, s := range t.owners {
+	var okeys []string
+	for o := range t.owners {
+		okeys = append(okeys, o)
+	}
+	sort.Strings(okeys)
+	for _, o := range okeys {
+		s := t.owners[o]
 		var ips []string
 		for k := range s.ips {
 			kb := c10KeyBytes(k)
@@ -477,15 +483,18 @@ func c10TrackerStr(t *domainRoutingTracker) string {
 		sort.Strings(ips)
 		owners = append(owners, c10OwnerTok(o)+":"+c10Bits(s.bitmap.Bitmap[:])+":"+strings.Join(ips, ","))
 	}
-	sort.Strings(owners)
 	var ips []string
 	for k, st := range t.ips {
 		kb := c10KeyBytes(k)
-		var ows []string
-		for o, b := range st.owners {
+		var ows, okeys2 []string
+		for o := range st.owners {
+			okeys2 = append(okeys2, o)
+		}
+		sort.Strings(okeys2)
+		for _, o := range okeys2 {
+			b := st.owners[o]
 			ows = append(ows, c10OwnerTok(o)+"="+c10Bits(b.Bitmap[:]))
 		}
-		sort.Strings(ows)
 		ips = append(ips, hex.EncodeToString(kb[:])+":"+c10Bits(st.merged.Bitmap[:])+":"+strings.Join(ows, ","))
 	}
 	sort.Strings(ips)
@@ -832,12 +841,20 @@ func (w *c10Cache) summary(extra string) string {
 
 func (w *c10Cache) dump() string {
 	var ents, stamps []string
-	w.ctrl.dnsCache.Range(func(k, v any) bool {
+	var cacheKeys []string
+	w.ctrl.dnsCache.Range(func(k, _ any) bool {
+		cacheKeys = append(cacheKeys, k.(string))
+		return true
+	})
+	sort.Strings(cacheKeys) // by key, like the driver
+	for _, key0 := range cacheKeys {
+		k := any(key0)
+		v, _ := w.ctrl.dnsCache.Load(key0)
 		c := v.(*DnsCache)
 		snap, err := buildDomainRoutingOwnerSnapshot(c)
 		if err != nil {
 			ents = append(ents, k.(string)+":ERR")
-			return true
+			continue
 		}
 		var ips []string
 		for key := range snap.ips {
@@ -848,10 +865,7 @@ func (w *c10Cache) dump() string {
 		ents = append(ents, fmt.Sprintf("%s:%s:%s", k.(string), c10Bits(snap.bitmap.Bitmap[:]), strings.Join(ips, ",")))
 		stamps = append(stamps, fmt.Sprintf("%s:dl=%d:odl=%d:sync=%d:acc=%d", k.(string),
 			c.Deadline.Sub(w.t0).Nanoseconds(), c.OriginalDeadline.Sub(w.t0).Nanoseconds(), w.rel(c.lastRouteSyncNano.Load()), w.rel(c.lastAccessNano.Load())))
-		return true
-	})
-	sort.Strings(ents)
-	sort.Strings(stamps)
+	}
 	// peek at the queue without consuming it
 	var pend []string
 	n := len(w.ctrl.bpfUpdateCh)
